@@ -11,6 +11,7 @@ mod monitors;
 mod runs;
 mod xsolve;
 mod lu;
+mod xfdjac;
 mod xpy;
 mod families;
 mod xradau;
@@ -35,6 +36,7 @@ fn main() {
         "xsolout" => solout::run(rest),
         "xsolve" => xsolve::run(rest),
         "xlu" => lu::run(rest),
+        "xfdjac" => xfdjac::run(rest),
         "xpy" => xpy::run(rest),
         "xradau" => xradau::run(rest),
         "xbdf" => xbdf::run(rest),
